@@ -92,8 +92,11 @@ def r_visitor(root):
     inst += 1
     # the raw grammar spelling (the definition of the literal taken from the parse tree) may reach the keyword test only
     # through the guard of the decoding (the backslash test)
-    dguard = [n for n in gs.nodes if n.kind == "cond" and any(d in gs_succ_closure(n, 3) for d in dec)]
     var = next((c.args[0].id for k in kw for c in calls(k.ast) if callee_name(c) == "match" and c.args and isinstance(c.args[0], ast.Name)), None)
+    fis = sem.info(vs)
+    dcall = next(c for c in calls(vs, own=True) if callee_name(c) == "decode_escapes")
+    gtests = [g for g, pol in fis.guards(dcall) if pol and var and any(isinstance(x, ast.Name) and x.id == var for x in ast.walk(g))]
+    dguard = [n for n in gs.nodes if n.kind == "cond" and any(n.ast is g for g in gtests)]
     raw = [n for n in gs.nodes if n.kind == "stmt" and isinstance(n.ast, ast.Assign) and var and any(isinstance(tg, ast.Name) and tg.id == var for tg in n.ast.targets) and "children" in ast.unparse(n.ast.value)]
     if not dguard or not raw: raise AnalysisError("visit_str_match: decode guard / raw literal definition not found")
     okd = all(s_ in dguard or gs.paths_avoiding(s_, k, lambda n: n in dguard) is None for r in raw for k_, s_ in r.succ if k_ != "exc" for k in kw)
